@@ -586,3 +586,92 @@ func runC19capSpecial(c *vkit.Collector, rng *vkit.Rng, budget int) {
 		}
 	}
 }
+
+// runC19capNearPi: operand pairs whose angles sum to pi -/+ (k*1e-13 ... 1e-8), radii 1..179 degrees:
+// where the squared-chord sum is a few ulps from 4. Every result must be a valid value:
+// ChordAngle.Add/Sub in [0,4], cap radius in [0,4] (or negative = empty), IsFull iff radius == 4.
+func runC19capNearPi(c *vkit.Collector, rng *vkit.Rng, budget int) {
+	unit := func(x, y, z float64) s2.Point { return s2.Point{Vector: r3.Vector{X: x, Y: y, Z: z}.Normalize()} }
+	randPt := func() s2.Point { return unit(rng.Range(-1, 1), rng.Range(-1, 1), rng.Range(-1, 1)) }
+	degs := []float64{1, 3, 10, 30, 45, 60, 89, 90, 91, 120, 150, 177, 179}
+	for k := 0; k < 6*budget; k++ {
+		degs = append(degs, float64(1+rng.Intn(179)))
+	}
+	offs := []float64{1e-12, 1e-11, 1e-10, 1e-9, 1e-8, 3e-8}
+	for k := 1; k <= 20; k++ {
+		offs = append(offs, float64(k)*1e-13)
+	}
+	capResultOK := func(name string, u s2.Cap, rep map[string]interface{}) {
+		_, ur := s2.VerifC19CapFields(u)
+		if !capValidO(u) {
+			c.Violate("cap."+name+".invalid-result", "result is not a valid cap (radius NaN or above 4, or centre not unit)", rep)
+			return
+		}
+		if u.IsFull() != (ur == 4) || u.IsEmpty() != (ur < 0) {
+			c.Violate("cap."+name+".full-flag", "IsFull/IsEmpty of the result disagree with its radius", rep)
+		}
+		if ur >= 4 && !u.Complement().IsEmpty() {
+			c.Violate("cap."+name+".full-complement", "a result covering the sphere has a non-empty complement", rep)
+		}
+	}
+	tcount := 0
+	for _, dg := range degs {
+		r := dg * math.Pi / 180
+		for _, off := range offs {
+			for _, sg := range []float64{-1, 1} {
+				e := math.Pi - r + sg*off // r + e = pi +/- off
+				if e < 0 {
+					continue
+				}
+				c.Eval(fmt.Sprintf("capPi:%v/%v/%v", dg, off, sg), true)
+				c.Class("capPi:sum=pi" + map[float64]string{-1: "-", 1: "+"}[sg] + "delta")
+				x, y := s1.ChordAngleFromAngle(s1.Angle(r)), s1.ChordAngleFromAngle(s1.Angle(e))
+				rep := map[string]interface{}{"type": "s1.ChordAngle", "radius_deg": dg, "angle_r": fs(r), "angle_e": fs(e), "x": fs(float64(x)), "y": fs(float64(y)),
+					"bits": fmt.Sprintf("%x %x", math.Float64bits(float64(x)), math.Float64bits(float64(y)))}
+				// ChordAngle arithmetic itself
+				for name, v := range map[string]float64{"Add": float64(x.Add(y)), "Add'": float64(y.Add(x)), "Sub": float64(x.Sub(y)), "Sub'": float64(y.Sub(x)),
+					"Sub(4,x)": float64(s1.StraightChordAngle.Sub(x))} {
+					if math.IsNaN(v) || v < 0 || v > 4 {
+						c.Violate("ChordAngle."+name[:3]+".range", "the result of ChordAngle arithmetic on valid operands is outside [0,4]", rep)
+					}
+				}
+				if s := float64(x.Add(y)); !(s+capEps >= float64(x)) || !(s+capEps >= float64(y)) {
+					c.Violate("ChordAngle.Add.monotone", "ChordAngle.Add is smaller than an operand by more than eps", rep)
+				}
+				// caps
+				p, q := randPt(), randPt()
+				a := s2.CapFromCenterAngle(p, s1.Angle(r))
+				ex := a.Expanded(s1.Angle(e))
+				rep["center"] = fs(p.X, p.Y, p.Z)
+				capResultOK("Expanded", ex, rep)
+				ec, er := s2.VerifC19CapFields(ex)
+				for _, pr := range capProbes(randPt, a)[:8] {
+					ac, ar := s2.VerifC19CapFields(a)
+					if finitePt(pr) && capMemExact(ac, ar, pr, 0) && !capMemExact(ec, er, pr, 2*capEps) {
+						c.Violate("cap.Expanded", "Expanded by a non-negative angle clearly loses a point", rep)
+					}
+				}
+				// second cap placed so that distance + its radius is pi +/- off
+				r2 := rng.Range(0, math.Min(e, 1))
+				b := s2.CapFromCenterAngle(s2.InterpolateAtDistance(s1.Angle(e-r2), p, q), s1.Angle(r2))
+				small := s2.CapFromCenterAngle(p, s1.Angle(rng.Range(0, 0.5)))
+				ad, ad2, un := small.AddCap(b), a.AddCap(b), a.Union(b)
+				capResultOK("AddCap", ad, rep)
+				capResultOK("AddCap", ad2, rep)
+				if capUnionKnownNaN(a, b, un) {
+					// the recorded Union defect, reported by its own regression input
+				} else {
+					capResultOK("Union", un, rep)
+				}
+				if tcount < 40*budget && rng.Intn(8) == 0 {
+					tcount++
+					key := fmt.Sprintf("%v %v %v", dg, off, sg)
+					c.Check("capPi.ChordAngle.Add "+key, vkit.App("fbiteq", vkit.App("s1_ChordAngle_Add", vkit.F(float64(x)), vkit.F(float64(y))), vkit.F(float64(x.Add(y)))))
+					c.Check("capPi.ChordAngle.Sub "+key, vkit.App("fbiteq", vkit.App("s1_ChordAngle_Sub", vkit.F(float64(x)), vkit.F(float64(y))), vkit.F(float64(x.Sub(y)))))
+					c.Check("capPi.Expanded "+key, vkit.App("s2_Cap_eqbits", vkit.App("s2_Cap_Expanded", capTerm(a), vkit.F(e)), capTerm(ex)))
+					c.Check("capPi.AddCap "+key, vkit.App("s2_Cap_eqbits", vkit.App("s2_Cap_AddCap", capTerm(a), capTerm(b)), capTerm(ad2)))
+				}
+			}
+		}
+	}
+}
